@@ -67,7 +67,13 @@ def realise(c, scratch, tag):
     return path, cat_total
 
 
-def observe(dfs, path, cat_total):
+def observe(dfs, path, cat_total, pre=None, drive="0"):
+    """pre: image files attached before `path` in the same run (the observed surface is then `drive`)."""
+    files = []
+    for p_ in (pre or []) + [path]:
+        files += ["--file", p_]
+    if pre is not None:
+        return observe_session(dfs, files, drive, cat_total)
     o = common.run([dfs, "--file", path, "--show-config", "cat"], timeout=30)
     out = o.out.decode("latin1")
     if o.rc != 0:
@@ -89,6 +95,26 @@ def observe(dfs, path, cat_total):
     o2 = common.run([dfs, "--file", path, "info", "#.*"], timeout=30)
     o3 = common.run([dfs, "--file", path, "show-titles"], timeout=30)
     listing = hashlib.md5(o.out + b"|" + o2.out + b"|" + o3.out + b"|%d%d" % (o2.rc or 0, o3.rc or 0)).hexdigest()[:12]
+    return dict(variant=variant, cyl=cyl, spt=spt, cattotal=cat_total, listing=listing, rc=o.rc if o.rc is not None else -9)
+
+
+def observe_session(dfs, files, drive, cat_total):
+    o = common.run([dfs, "--drive-first"] + files + ["--show-config", "cat", drive], timeout=30)
+    out = o.out.decode("latin1")
+    if o.rc != 0:
+        variant = "NONE" if (o.ok_alphabet() and o.err.strip()) else "CRASH"
+    else:
+        first = out.split("\n")[0]
+        variant = "WDFS" if " files of 62 on " in out else "OPUS" if (first.startswith(" ") and "Directory" in out) else \
+                  "HDFS" if not re.search(r"\([0-9A-F]{2}\)", first) else "DFS"
+    cyl = spt = 0
+    m = re.search(r"Drive %s: occupied, .*? (\d+) tracks, (\d+) sectors per track" % drive, o.err.decode("latin1"))
+    if m:
+        cyl, spt = int(m.group(1)), int(m.group(2))
+    o2 = common.run([dfs, "--drive-first"] + files + ["--drive", drive, "info", "#.*"], timeout=30)
+    # the listing as it would be on drive 0 (only the drive number differs)
+    norm = lambda b: re.sub(rb"Drive %s\b" % drive.encode(), b"Drive 0", re.sub(rb":%s\." % drive.encode(), b":0.", b))
+    listing = hashlib.md5(norm(o.out) + b"|" + o2.out + b"|%d" % (o2.rc or 0)).hexdigest()[:12]
     return dict(variant=variant, cyl=cyl, spt=spt, cattotal=cat_total, listing=listing, rc=o.rc if o.rc is not None else -9)
 
 
@@ -149,6 +175,50 @@ def run(chk, tier, seed):
                     gjobs.append((len(gjobs), ext, nsec, other, variant, forged))
         gev = common.pmap(geom_case, gjobs)
         events += gev
+        # identification is per surface: a disc attached after another image file of a different variant (two --file options), or
+        # lying on the second side of a two-sided image whose first side is of a different variant, is still what its own markers say
+        by_variant = {}
+        for i, c in enumerate(cases):
+            x = c["d"]
+            if x["cat0"] and x["lastok"] and x["total"] >= 400 and (x["vols"] in ("none", "valid")):
+                by_variant.setdefault((x["hdfs"], x["aa2"], x["start"] == 2, x["vols"], x["spt18"] and x["totok"]), []).append(c)
+        reps = [v[len(v) // 2] for k, v in sorted(by_variant.items())]
+
+        def pair_case(args):
+            pi, a, b, how = args
+            pa, _ = realise(a, scratch, "pa%d" % pi)
+            pb, ctb = realise(b, scratch, "pb%d" % pi)
+            if pa is None or pb is None:
+                return None
+            if how == "files":
+                ob = observe(dfs, pb, ctb, pre=[pa], drive="1")
+                g = "after-file"
+            else:
+                da, db = open(pa, "rb").read(), open(pb, "rb").read()
+                if len(da) != 1440 * 256 or len(db) != 1440 * 256:
+                    return None
+                pd = mkdisc.write(os.path.join(scratch, "pd%d.ddd" % pi), mkdisc.container_interleaved(da, db, 18))
+                ob = observe(dfs, pd, ctb, pre=[], drive="1")
+                os.unlink(pd)
+                g = "side1"
+            for p_ in (pa, pb):
+                os.unlink(p_)
+            return dict(ob, e="ident", id=200000 + pi, d=b["d"], ext=b["ext"], g="%s-%d" % (g, pi), first=a["d"])
+        pjobs = []
+        for a in reps:
+            for b in reps:
+                if a is not b:
+                    for how in ("files", "sides"):
+                        # (two-sided: the geometry of the whole file is chosen from side 0's catalogue, so side 0 has to be a disc
+                        # whose catalogue total only the 80-track geometry can hold, or side 1 would be looked at with another one)
+                        if how == "sides" and (a["d"]["vols"] != "none" or a["d"]["total"] <= 720):
+                            continue
+                        pjobs.append((len(pjobs), a, b, how))
+        if tier == "quick":
+            pjobs = [j for j in pjobs if j[0] % 3 == 0]
+        pev = [e for e in common.pmap(pair_case, pjobs) if e is not None]
+        events += pev
+        chk.extra["surface_pairs"] = len(pev)
         for e in events:
             chk.case(json.dumps(e["d"], sort_keys=True), nontrivial=e["variant"] not in ("NONE",))
         chk.sample(events[0])
@@ -164,7 +234,7 @@ def run(chk, tier, seed):
             raise common.MachineryError("TraceIdentify did not consume the whole trace:\n" + tr.output[-3000:])
         for ln in sorted(tr.verdicts[-1]["bad"]):
             e = events[ln - 1]
-            chk.violation("ident:%s-as-%s" % ("x", e["variant"]) if False else "ident:" + e["variant"],
+            chk.violation("ident:" + e["variant"] + (":after-another-surface" if "first" in e else ""),
                           "disc with markers %r was treated as %s, geometry %dx%d for catalogue total %d, listing %s"
                           % (e["d"], e["variant"], e["cyl"], e["spt"], e["cattotal"], e["listing"]), dict(event=e))
 
